@@ -494,7 +494,7 @@ theorem presented_total_adj_within_one_unit (d : Doc) (out : Out) (t : Totals) (
   exact_mod_cast Nat.le_of_lt_succ hn
 
 /-- one line 3 × 10.005 with a 12.5 % discount and a charge of 5 % of an explicit base of 20.00,
-one line 1.2 × 2.222 with a fixed charge of 1.25; a fixed document discount of 0.50 (carrying 21 %
+one line 1.2 × 2.222 with a fixed charge of 1.25 (10.5 % VAT and a retained tax of 15 %); a fixed document discount of 0.50 (carrying 21 %
 VAT) and a 2 % document charge -/
 def adjDoc : Doc :=
   { cur := "EUR", c := 2, rule := .precise, includes := none,
@@ -509,7 +509,9 @@ def adjDoc : Doc :=
                 charges := [{ percent := none, base := none, amount := ⟨125, 2⟩, rate := none, quantity := none }],
                 breakdown := [],
                 taxes := [{ cat := "VAT", country := "", key := "reduced", percent := some ⟨⟨105, 3⟩⟩,
-                            surcharge := none, ext := "", retained := false }] }],
+                            surcharge := none, ext := "", retained := false },
+                          { cat := "IRPF", country := "", key := "pro", percent := some ⟨⟨15, 2⟩⟩,
+                            surcharge := none, ext := "", retained := true }] }],
     discounts := [{ percent := none, base := none, amount := ⟨50, 2⟩,
                     taxes := [{ cat := "VAT", country := "", key := "standard", percent := some ⟨⟨21, 2⟩⟩,
                                 surcharge := none, ext := "", retained := false }] }],
@@ -562,11 +564,12 @@ one rounding per rate group (`G` = number of rate groups of the presented tax su
 plus the error the row totals carry into the tax (every percentage ≤ 100 %). -/
 
 /-- (2) class `DocT` (class `DocA`; no included tax; every tax combo on a line or on a document
-discount / charge is ordinary: not retained, no surcharge, exempt or a percentage of magnitude ≤ 100 %):
+discount / charge has no surcharge and is exempt or a percentage of magnitude ≤ 100 %, and whether it
+is retained is a function `ret` of its category alone):
 with `G` rate groups in the tax summary, if `taxW d G < 100` the presented tax, and if
 `totalW d + taxW d G < 100` the presented total with tax, are less than one minor unit from the exact
 rational values of `Spec.C01.exactQ` -/
-theorem presented_tax_within_one_unit (d : Doc) (out : Out) (t : Totals) (hd : DocT d)
+theorem presented_tax_within_one_unit (ret : String → Bool) (d : Doc) (out : Out) (t : Totals) (hd : DocT ret d)
     (hcalc : calculate exactOps d = .ok out) (ht : out.totals = some t) :
     (taxW d (groupsT t) < 100 → |t.tax.toRat - (exactQ d).tax| < 1 / ((pow10 d.c : ℤ) : ℚ)) ∧
     (twtW d (groupsT t) < 100 →
@@ -580,11 +583,14 @@ theorem presented_tax_within_one_unit (d : Doc) (out : Out) (t : Totals) (hd : D
   exact ⟨fun hn => within_unit d.c _ _ _ (by exact_mod_cast Nat.le_of_lt_succ hn) w5,
     fun hn => within_unit d.c _ _ _ (by exact_mod_cast Nat.le_of_lt_succ hn) w6⟩
 
-theorem adjDoc_tax_class : DocT adjDoc := by
-  have hcb : ∀ (k : String) (v : ℤ) (e : ℕ), |(⟨v, e⟩ : Amount).toRat| ≤ 1 →
-      ComboOk { cat := "VAT", country := "", key := k, percent := some ⟨⟨v, e⟩⟩, surcharge := none, ext := "", retained := false } := by
-    intro k v e h
-    refine ⟨rfl, rfl, ?_⟩
+/-- which categories are retained in the examples -/
+def retEx : String → Bool := fun k => k == "IRPF"
+
+theorem adjDoc_tax_class : DocT retEx adjDoc := by
+  have hcb : ∀ (cat k : String) (v : ℤ) (e : ℕ) (r : Bool), r = retEx cat → |(⟨v, e⟩ : Amount).toRat| ≤ 1 →
+      ComboOk retEx { cat := cat, country := "", key := k, percent := some ⟨⟨v, e⟩⟩, surcharge := none, ext := "", retained := r } := by
+    intro cat k v e r hr h
+    refine ⟨hr, rfl, ?_⟩
     intro p hp
     simp only [Option.some.injEq] at hp
     subst hp
@@ -595,28 +601,30 @@ theorem adjDoc_tax_class : DocT adjDoc := by
     rcases hl with rfl | rfl
     · simp only [List.mem_singleton] at hcbm
       subst hcbm
-      exact hcb _ _ _ (by norm_num [Amount.toRat, pow10])
-    · simp only [List.mem_singleton] at hcbm
-      subst hcbm
-      exact hcb _ _ _ (by norm_num [Amount.toRat, pow10])
+      exact hcb _ _ _ _ _ (by decide) (by norm_num [Amount.toRat, pow10])
+    · simp only [List.mem_cons, List.mem_nil_iff, or_false] at hcbm
+      rcases hcbm with rfl | rfl
+      · exact hcb _ _ _ _ _ (by decide) (by norm_num [Amount.toRat, pow10])
+      · exact hcb _ _ _ _ _ (by decide) (by norm_num [Amount.toRat, pow10])
   · intro x hx cb hcbm
     simp only [adjDoc, List.mem_singleton] at hx
     subst hx
     simp only [List.mem_singleton] at hcbm
     subst hcbm
-    exact hcb _ _ _ (by norm_num [Amount.toRat, pow10])
+    exact hcb _ _ _ _ _ (by decide) (by norm_num [Amount.toRat, pow10])
   · intro x hx cb hcbm
     simp only [adjDoc, List.mem_singleton] at hx
     subst hx
     simp at hcbm
 
-/-- non-vacuity of (2): two rate groups (21 % and 10.5 %), `taxW = 2 + (5 + 3) + (1 + 8) = 19`,
-`twtW = 26 + 19 = 45`; exact tax (27.263125 − 0.50) × 0.21 + 3.9164 × 0.105 = 6.03147825 (presented 6.03),
-exact total with tax 31.3031155 + 6.03147825 = 37.33459375 (presented 37.33) -/
-example : DocT adjDoc ∧
+/-- non-vacuity of (2): three rate groups (VAT 21 % and 10.5 %, retained 15 %),
+`taxW = 3 + (5·1 + 3·2) + (1 + 8)·1 = 23`, `twtW = 26 + 23 = 49`; exact tax
+(27.263125 − 0.50) × 0.21 + 3.9164 × (0.105 − 0.15) = 5.44401825 (presented 5.44), exact total with tax
+31.3031155 + 5.44401825 = 36.74713375 (presented 36.75) -/
+example : DocT retEx adjDoc ∧
     ((calculate exactOps adjDoc).toOption.bind (·.totals)).map
       (fun t => (groupsT t, taxW adjDoc (groupsT t), twtW adjDoc (groupsT t), t.tax, t.totalWithTax)) =
-      some (2, 19, 45, ⟨603, 2⟩, ⟨3733, 2⟩) :=
+      some (3, 23, 49, ⟨544, 2⟩, ⟨3675, 2⟩) :=
   ⟨adjDoc_tax_class, by decide⟩
 
 /-! ## payable, advances, due
@@ -628,7 +636,7 @@ example : DocT adjDoc ∧
 currency + 2 decimals; every advance a percentage ≤ 100 % of the total with tax or a fixed amount with
 at most currency + 2 decimals): the presented payable, advances total and amount due are less than
 one minor unit from the exact rational values whenever their weight is below 100 -/
-theorem presented_payment_within_one_unit (d : Doc) (out : Out) (t : Totals) (hd : DocC d)
+theorem presented_payment_within_one_unit (ret : String → Bool) (d : Doc) (out : Out) (t : Totals) (hd : DocC ret d)
     (hcalc : calculate exactOps d = .ok out) (ht : out.totals = some t) :
     (twtW d (groupsT t) < 100 → |t.payable.toRat - (exactQ d).payable| < 1 / ((pow10 d.c : ℤ) : ℚ)) ∧
     (advW d (groupsT t) < 100 → ∀ x, t.advances = some x →
@@ -658,7 +666,7 @@ def payDoc : Doc :=
   { adjDoc with hasPayment := true, rounding := some ⟨-2, 2⟩,
                 advances := [{ percent := some ⟨⟨30, 2⟩⟩, amount := ⟨0, 0⟩ }] }
 
-theorem payDoc_class : DocC payDoc := by
+theorem payDoc_class : DocC retEx payDoc := by
   refine ⟨⟨⟨adjDoc_class.rule, adjDoc_class.ne, adjDoc_class.lines, adjDoc_class.discounts, adjDoc_class.charges⟩,
     rfl, adjDoc_tax_class.lineTaxes, adjDoc_tax_class.discTaxes, adjDoc_tax_class.chTaxes⟩, ?_, ?_⟩
   · intro x hx
@@ -670,14 +678,14 @@ theorem payDoc_class : DocC payDoc := by
     subst ha
     exact Or.inl ⟨_, rfl, by norm_num [Amount.toRat, pow10]⟩
 
-/-- non-vacuity of (3): weights 45, 46 and 91; exact payable 37.33459375 − 0.02 = 37.31459375
-(presented 37.31), exact advance 30 % × 37.33459375 = 11.200378125 (presented 11.20), exact due
-26.114215625 (presented 26.11) -/
-example : DocC payDoc ∧
+/-- non-vacuity of (3): weights 49, 50 and 99; exact payable 36.74713375 − 0.02 = 36.72713375
+(presented 36.73), exact advance 30 % × 36.74713375 = 11.024140125 (presented 11.02), exact due
+25.702993625 (presented 25.70) -/
+example : DocC retEx payDoc ∧
     ((calculate exactOps payDoc).toOption.bind (·.totals)).map
-      (fun t => (twtW payDoc (groupsT t), advW payDoc (groupsT t), dueW payDoc (groupsT t))) = some (45, 46, 91) ∧
+      (fun t => (twtW payDoc (groupsT t), advW payDoc (groupsT t), dueW payDoc (groupsT t))) = some (49, 50, 99) ∧
     ((calculate exactOps payDoc).toOption.bind (·.totals)).map (fun t => (t.payable, t.advances, t.due)) =
-      some (⟨3731, 2⟩, some ⟨1120, 2⟩, some ⟨2611, 2⟩) :=
+      some (⟨3673, 2⟩, some ⟨1102, 2⟩, some ⟨2570, 2⟩) :=
   ⟨payDoc_class, by decide, by decide⟩
 
 /-! ## the first clause as one theorem -/
@@ -698,7 +706,7 @@ are named by the weights: price × quantity of each line and each percentage lin
 (`lineW`, `sumW`), each document discount / charge (`adjW`, `totalW`), each rate group of the tax
 summary (`G = groupsT t`, `taxW`), each percentage advance (`advW`); sums, differences, the precise
 rule's `RescaleUp`, fixed amounts and the externally supplied rounding contribute nothing. -/
-theorem calc_eq_spec (d : Doc) (out : Out) (t : Totals) (hd : DocC d)
+theorem calc_eq_spec (ret : String → Bool) (d : Doc) (out : Out) (t : Totals) (hd : DocC ret d)
     (hcalc : calculate exactOps d = .ok out) (ht : out.totals = some t) :
     ∃ w : Totals, t = roundTotals exactOps d.c w ∧
       -- presentation: one rounding, half away from zero, at the currency's precision
@@ -739,7 +747,7 @@ theorem calc_eq_spec (d : Doc) (out : Out) (t : Totals) (hd : DocC d)
 /-- **precise_error_lt_unit** — for a document of the class `DocC` whose largest weight
 `dueW d G` (G rate groups) is below 100, every presented total is less than one minor currency unit
 from the exact rational value -/
-theorem precise_error_lt_unit (d : Doc) (out : Out) (t : Totals) (hd : DocC d)
+theorem precise_error_lt_unit (ret : String → Bool) (d : Doc) (out : Out) (t : Totals) (hd : DocC ret d)
     (hn : dueW d (groupsT t) < 100)
     (hcalc : calculate exactOps d = .ok out) (ht : out.totals = some t) :
     |t.sum.toRat - (exactQ d).sum| < 1 / ((pow10 d.c : ℤ) : ℚ) ∧
@@ -751,7 +759,7 @@ theorem precise_error_lt_unit (d : Doc) (out : Out) (t : Totals) (hd : DocC d)
     (∀ x, t.charge = some x → |x.toRat - (exactQ d).charge| < 1 / ((pow10 d.c : ℤ) : ℚ)) ∧
     (∀ x, t.advances = some x → |x.toRat - (exactQ d).advances| < 1 / ((pow10 d.c : ℤ) : ℚ)) ∧
     (∀ x, t.due = some x → |x.toRat - (exactQ d).due| < 1 / ((pow10 d.c : ℤ) : ℚ)) := by
-  obtain ⟨w, htr, _, b1, b2, b3, b4, b5, b6, b7, b8, b9⟩ := calc_eq_spec d out t hd hcalc ht
+  obtain ⟨w, htr, _, b1, b2, b3, b4, b5, b6, b7, b8, b9⟩ := calc_eq_spec ret d out t hd hcalc ht
   set G := groupsT t
   -- every weight is at most the weight of the amount due
   have m1 : twtW d G ≤ dueW d G := Nat.le_add_right _ _
@@ -799,16 +807,16 @@ theorem precise_error_lt_unit (d : Doc) (out : Out) (t : Totals) (hd : DocC d)
   exact hs y _ _ (Nat.le_refl _) (b9 y hy)
 
 /-- non-vacuity of `calc_eq_spec` / `precise_error_lt_unit`: `payDoc` is of the class and its largest
-weight is 91 < 100; the presented figures against the exact values 31.179525, 0.50, 0.6235905,
-31.3031155, 6.03147825, 37.33459375, 37.31459375, 11.200378125, 26.114215625 -/
-example : DocC payDoc ∧
-    ((calculate exactOps payDoc).toOption.bind (·.totals)).map (fun t => dueW payDoc (groupsT t)) = some 91 ∧
+weight is 99 < 100; the presented figures against the exact values 31.179525, 0.50, 0.6235905,
+31.3031155, 5.44401825, 36.74713375, 36.72713375, 11.024140125, 25.702993625 -/
+example : DocC retEx payDoc ∧
+    ((calculate exactOps payDoc).toOption.bind (·.totals)).map (fun t => dueW payDoc (groupsT t)) = some 99 ∧
     ((calculate exactOps payDoc).toOption.bind (·.totals)).map (fun t => (t.sum, t.discount, t.charge, t.total)) =
       some (⟨3118, 2⟩, some ⟨50, 2⟩, some ⟨62, 2⟩, ⟨3130, 2⟩) ∧
     ((calculate exactOps payDoc).toOption.bind (·.totals)).map (fun t => (t.tax, t.totalWithTax, t.payable)) =
-      some (⟨603, 2⟩, ⟨3733, 2⟩, ⟨3731, 2⟩) ∧
+      some (⟨544, 2⟩, ⟨3675, 2⟩, ⟨3673, 2⟩) ∧
     ((calculate exactOps payDoc).toOption.bind (·.totals)).map (fun t => (t.advances, t.due)) =
-      some (some ⟨1120, 2⟩, some ⟨2611, 2⟩) :=
+      some (some ⟨1102, 2⟩, some ⟨2570, 2⟩) :=
   ⟨payDoc_class, by decide, by decide, by decide, by decide⟩
 
 /-! ## pinned source shapes (regenerated facts; tools/pin_calc_expect.py) -/
